@@ -137,6 +137,60 @@ CHECKS = {
              "stated model.",
         technique="Lean 4 proof over translator-generated formulas + differential correspondence",
         design="§6 C17"),
+    "C08": dict(
+        text="Lean theorems over the sampler / lifecycle model: iterate_n(a+b) = iterate_n(a); iterate_n(b), run = iterate_n(k) for the k "
+             "the wall clock allows, completion absorbs every drive call, any two driving schedules that reach completion give the same "
+             "records / clock / state, set-up from any non-crashed process state observes the same (clean slate), every data member is "
+             "assigned in Init (generated inventory), the generator is seeded once in Init and advanced only by draws (generated inventory "
+             "of every statement mentioning rng), an algorithm that ignores a state component records the same trajectory whatever it is "
+             "(Euler over the concrete eulerStep), the stored script keeps the drawn seed. Harness: bitwise comparison of real "
+             "trajectories: fresh-process reference vs random schedules (iterate / iterate_n / run 0|1 ms), reused and fresh engine objects "
+             "after earlier simulations of other kinds, simulate_script, re-run of trajectory.script (also seed None), other seed (Euler).",
+        note="Lean kernel + {propext, Classical.choice, Quot.sound}; translator; harness; bit-identity of the compiled arithmetic and "
+             "of mt19937 streams is observed (sha1 of the raw arrays), not proved.",
+        technique="Lean 4 proof over an executable model tied to translator-generated inventories + bitwise differential runs in sandboxed processes",
+        design="§6 C08"),
+    "C09": dict(
+        text="Lean theorems over an executable model of the native sampler (Sample, SampleOnTSample, SampleOnInterval, SamplingStep, "
+             "CheckTMax, Init's t=0 step, the Iterate skeleton of the six algorithms; abstract algorithm step, exact clock): shape and "
+             "order of the exported buffer, strictly increasing policy times, non-decreasing times with explicit sample() calls, t=0 record = "
+             "initial state, a step is recorded iff a requested time / a multiple of the interval lies in (previous step, this step] "
+             "(sorted requests), one record per step, every step / none, fixed-step clock n*dt with completion exactly at the first step "
+             "beyond t_max, default t_max. Tie: generated loop conditions, bodies, dispatch, Iterate statement lists, Init assignments, "
+             "export index formulas, policy tables (theorems of the form Gen.item = literal) + correspondence `lifecycle` (real engine "
+             "driven step by step in a sandboxed child, model replays the calls on the observed clock) + contract oracle on the real "
+             "t/data.",
+        note="Lean kernel + {propext, Classical.choice, Quot.sound}; translator; correspondence harness; float clock: exact for dyadic "
+             "dt, else 1e-9 relative and +-1 step as the statement allows; the algorithm step itself is abstract here (C01/C07 cover it).",
+        technique="Lean 4 proof over an executable model tied to translator-generated source text + differential correspondence",
+        design="§6 C09"),
+    "C10": dict(
+        text="Lean theorems over an executable model of the engine lifecycle (native globals with null/live/dangling pointers, "
+             "engineexport_* entry points, LibRDEngine wrapper attributes, one or two engine objects on one library): no call faults "
+             "on lifecycle-respecting single-object histories, iterate_n/run are finite compositions of Iterate, fixed-step completion after "
+             "floor(t_max/dt)+1 steps (= ceil +-1), completion absorbing for every drive call, status refers to the current set-up, output "
+             "fetch is pure, finalize idempotent, set-up from any non-crashed world observes the same (clean slate), independence for "
+             "non-overlapping live intervals; the full independence statement is proved FALSE by a concrete history (known finding), "
+             "as are use-after-finalize and iterate_n(0)-after-completion (reported findings). Tie: generated entry-point bodies, "
+             "globals, wrapper statements + correspondence `lifecycle` on call histories run in sandboxed children + reference state "
+             "machine oracle (returns in time, completion step, status, fresh-process trajectories).",
+        note="Lean kernel + {propext, Classical.choice, Quot.sound}; translator; correspondence harness; termination of the native loops "
+             "inside one step and of the redistribution loop is observed (time-outs), not proved (C14 owns the loop).",
+        technique="Lean 4 proof over an executable state-machine model tied to translator-generated source text + differential correspondence in sandboxed processes",
+        design="§6 C10"),
+    "C11": dict(
+        text="PARTIAL BY NATURE. Lean theorems on the engine model: flat2/flat3 index bounds, the loop condition of SampleOnTSample "
+             "never reads t_samples out of range given the regenerated conjunct order, the diffusion event selected by Gillespie and "
+             "every tau-leap Poisson call belong to a slot with a neighbour, std::poisson_distribution is only constructed with a positive "
+             "mean (regenerated guards, count of constructions), the allocation state machine never double-frees or uses a freed object "
+             "(C10's invariant), and every vector[index] of the engine sources (162 occurrences, regenerated) has a registered bounded "
+             "index form. Oracle = the property's observation point: the working tree's engine compiled with -D_GLIBCXX_ASSERTIONS "
+             "and with ASan+UBSan, driven through the Python API over degenerate shapes, all policies / modes, coarse steps, repeated "
+             "output fetches, double finalize, calls on a released engine; plain and hardened builds must agree bitwise.",
+        note="Lean kernel + {propext, Classical.choice, Quot.sound}; translator; the compiled program's memory behaviour is observed on "
+             "sampled inputs with sanitizers (no uninitialised-read detection), not proved; int overflow excluded by the size assumption.",
+        technique="Lean 4 proof of index/guard logic over an executable model + subscript registry from the translator + sanitizer-instrumented differential runs",
+        design="§6 C11"),
 }
 
 ALL = ["C%02d" % i for i in range(1, 21)]
